@@ -112,6 +112,10 @@ func (Implementation) Zgbmv(trans blas.Transpose, m, n, kL, kU int, alpha comple
 		}
 	}
 
+	if alpha == 0 {
+		return
+	}
+
 	nRow := min(m, n+kL)
 	nCol := kL + 1 + kU
 	switch trans {
